@@ -171,10 +171,11 @@ impl Worker {
         });
         Worker { child, stdin, rx }
     }
-    fn ask(&mut self, input: &str) -> Option<String> {
+    fn ask(&mut self, input: &str) -> Option<String> { self.ask_within(input, WATCHDOG) }
+    fn ask_within(&mut self, input: &str, limit: Duration) -> Option<String> {
         writeln!(self.stdin, "{}", input).ok()?;
         self.stdin.flush().ok()?;
-        self.rx.recv_timeout(WATCHDOG).ok()
+        self.rx.recv_timeout(limit).ok()
     }
     fn kill(mut self) {
         let _ = self.child.kill();
@@ -194,7 +195,8 @@ impl Runner {
         // no answer (or the worker died): kill it, re-run once in a fresh worker, in isolation
         self.w.take().unwrap().kill();
         let mut fresh = Worker::spawn();
-        let again = if seen >= 3 { None } else { fresh.ask(input) };
+        // the isolated re-run gets three times the limit, so that a machine under heavy load is not mistaken for a hang
+        let again = if seen >= 3 { None } else { fresh.ask_within(input, WATCHDOG * 3) };
         match again {
             Some(r) => { self.w = Some(fresh); Some(r) }
             None => {
